@@ -255,6 +255,17 @@ class ConnectedState(BaseState):
 
 
 
+# ---------------------------------------
+# Closing State Class
+# ---------------------------------------
+
+class ClosingState(BaseState):
+    '''
+    DISCONNECT has been sent: nothing is accepted or handled any more
+    until the transport reports the connection loss.
+    '''
+    pass
+
 # ------------------------
 # MQTT Base Protocol Class
 # ------------------------
@@ -284,6 +295,7 @@ class MQTTBaseProtocol(Protocol):
         self.IDLE        = IdleState(self)
         self.CONNECTING  = ConnectingState(self)
         self.CONNECTED   = ConnectedState(self)
+        self.CLOSING     = ClosingState(self)
         self.state       = self.IDLE
         self.factory     = factory
         self._initialT   = self.TIMEOUT_INITIAL # Initial timeout for retransmissions
@@ -511,12 +523,7 @@ class MQTTBaseProtocol(Protocol):
 
     def connectionLost(self, reason):
         log.debug("--- Connection to MQTT Broker lost")
-        if self._pingReq.timer:
-            self._pingReq.timer.stop()
-            self._pingReq.timer = None
-        if self._pingReq.alarm:
-            self._pingReq.alarm.cancel()
-            self._pingReq.alarm = None
+        self._stopKeepalive()
         self.doConnectionLost(reason)
         self.state = self.IDLE
         # The disconnect callback is invoked in another reactor loop cycle
@@ -674,6 +681,11 @@ class MQTTBaseProtocol(Protocol):
         log.debug("==> {packet:7}",packet="DISCONNECT")
         self.transport.write(request.encode())
         self.transport.loseConnection()
+        # DISCONNECT is the last packet of a connection, but the transport
+        # reports the loss only later: stop keepalive and retransmissions now.
+        self._stopKeepalive()
+        self.doCancelAlarms()
+        self.state = self.CLOSING
 
     # ------------------------------------------------------------------------
 
@@ -723,6 +735,27 @@ class MQTTBaseProtocol(Protocol):
         To be subclassed
         '''
         pass
+
+    # ------------------------------------------------------------------------
+
+    def doCancelAlarms(self):
+        '''
+        To be subclassed: cancel the retransmission alarms
+        '''
+        pass
+
+    # ------------------------------------------------------------------------
+
+    def _stopKeepalive(self):
+        '''
+        Stops the periodic PINGREQ and its PINGRESP deadline
+        '''
+        if self._pingReq.timer:
+            self._pingReq.timer.stop()
+            self._pingReq.timer = None
+        if self._pingReq.alarm:
+            self._pingReq.alarm.cancel()
+            self._pingReq.alarm = None
 
     # --------------
     # Helper methods
